@@ -263,16 +263,63 @@ func (s *Slashing) stateField(v ssa.Value) (kind string, field string) {
 	return "", ""
 }
 
-// stateFieldStores lists all stores to fields of the state types in module functions.
 type fieldStore struct {
 	Fn    *ssa.Function
 	Store *ssa.Store
 	Kind  string // att / prop
 	Field string
+	Val   ssa.Value // the value the field receives (nil: the zero value, or a value the analysis cannot name)
+	Obj   ssa.Value // the state object written (pointer)
+	Whole bool      // part of an assignment of the whole struct (`*state = newState`)
 }
 
+// stateFieldStores lists the writes of fields of the state types in module functions: stores to a field, and assignments of
+// a whole struct value (one entry per field; the value of a field is known when the assigned struct is a local value built
+// once, field by field). Field stores into such a local builder value are not writes of a watermark object themselves and
+// are not listed - the assignment that copies the value out is.
 func (c *Ctx) stateFieldStores(s *Slashing) []fieldStore {
 	var out []fieldStore
+	kindOf := func(t types.Type) (string, *types.Named) {
+		if p, ok := t.Underlying().(*types.Pointer); ok {
+			t = p.Elem()
+		}
+		n, ok := t.(*types.Named)
+		if !ok {
+			return "", nil
+		}
+		if types.Identical(n, s.AttState) {
+			return "att", n
+		} else if types.Identical(n, s.PropState) {
+			return "prop", n
+		}
+		return "", nil
+	}
+	// a local struct value all whole-value loads of which are only copied on (assigned to another variable or object)
+	builder := func(v ssa.Value) *ssa.Alloc {
+		al, ok := v.(*ssa.Alloc)
+		if !ok || !an.PureLocalStruct(al) {
+			return nil
+		}
+		for _, r := range *al.Referrers() {
+			if ld, isLoad := r.(*ssa.UnOp); isLoad {
+				if ld.Referrers() == nil {
+					return nil
+				}
+				for _, lr := range *ld.Referrers() {
+					switch y := lr.(type) {
+					case *ssa.DebugRef:
+					case *ssa.Store:
+						if y.Val != ssa.Value(ld) {
+							return nil
+						}
+					default:
+						return nil
+					}
+				}
+			}
+		}
+		return al
+	}
 	for _, fn := range c.P.ModuleFuncs() {
 		if prog.IsTestish(prog.PkgPathOf(fn)) {
 			continue
@@ -283,29 +330,43 @@ func (c *Ctx) stateFieldStores(s *Slashing) []fieldStore {
 				if !ok {
 					continue
 				}
-				fa, ok := st.Addr.(*ssa.FieldAddr)
-				if !ok {
+				if fa, ok := st.Addr.(*ssa.FieldAddr); ok {
+					kind, n := kindOf(fa.X.Type())
+					if kind == "" {
+						continue
+					}
+					if builder(fa.X) != nil {
+						continue
+					}
+					st2 := n.Underlying().(*types.Struct)
+					out = append(out, fieldStore{Fn: fn, Store: st, Kind: kind, Field: st2.Field(fa.Field).Name(), Val: st.Val, Obj: fa.X})
 					continue
 				}
-				t := fa.X.Type()
-				if p, ok := t.Underlying().(*types.Pointer); ok {
-					t = p.Elem()
-				}
-				n, ok := t.(*types.Named)
-				if !ok {
-					continue
-				}
-				kind := ""
-				if types.Identical(n, s.AttState) {
-					kind = "att"
-				} else if types.Identical(n, s.PropState) {
-					kind = "prop"
-				}
+				// assignment of a whole state value
+				kind, n := kindOf(st.Addr.Type())
 				if kind == "" {
 					continue
 				}
+				if _, isStruct := st.Val.Type().Underlying().(*types.Struct); !isStruct {
+					continue
+				}
+				if builder(st.Addr) != nil {
+					continue // a copy between local builder values
+				}
 				st2 := n.Underlying().(*types.Struct)
-				out = append(out, fieldStore{Fn: fn, Store: st, Kind: kind, Field: st2.Field(fa.Field).Name()})
+				var src *ssa.Alloc
+				if ld, isLoad := st.Val.(*ssa.UnOp); isLoad {
+					src = builder(ld.X)
+				}
+				for i := 0; i < st2.NumFields(); i++ {
+					var val ssa.Value
+					if src != nil {
+						if v, zero, ok := an.LocalStructField(src, i, st.Val.(*ssa.UnOp)); ok && !zero {
+							val = v
+						}
+					}
+					out = append(out, fieldStore{Fn: fn, Store: st, Kind: kind, Field: st2.Field(i).Name(), Val: val, Obj: st.Addr, Whole: true})
+				}
 			}
 		}
 	}
@@ -317,7 +378,10 @@ func (c *Ctx) stateFieldRoles(s *Slashing) map[string]string {
 	roles := map[string]string{}
 	conflict := map[string]bool{}
 	for _, fs := range c.stateFieldStores(s) {
-		v := fs.Store.Val
+		v := fs.Val
+		if v == nil {
+			continue
+		}
 		if cv, ok := v.(*ssa.Convert); ok {
 			v = cv.X
 		}
@@ -358,7 +422,12 @@ func (s *Slashing) watermarkAtom(a *an.Atom, kind, stateFld, reqFld string, stri
 
 // convOfS is isConvOf through a substitution: Convert(x) where x may be a callee parameter.
 func convOfS(v ssa.Value, sub Subst, to types.BasicKind) (ssa.Value, bool) {
-	x, ok := isConvOf(sub.Res(v), to)
+	r := sub.Res(v)
+	if lv, isLocal := an.LocalFieldLoad(r); isLocal {
+		// `n := T{F: int64(x)}; ... n.F ...`: a field of a local struct value that is written once
+		r = sub.Res(lv)
+	}
+	x, ok := isConvOf(r, to)
 	if !ok {
 		return nil, false
 	}
